@@ -234,6 +234,10 @@ def judge_str(case, obs, out_line):
     if case["rej"]:
         if case.get("uncs"):
             return []
+        if case["form"] == "uni" and case["pos"] == "chr" and case["rej"] == 162 and (obs["ok"] or first_code(obs) == 163) \
+                and lexlib.valid_u_escape(bytes(case["lit"])[1:], any_length=True):
+            return ["char-u-escape: \\u{...} inside a character literal is decoded instead of E162 "
+                    "(pinned by tests/parsing.rs fail_to_parse_unicode_escape_in_char)"]
         if obs["ok"]:
             return ["accepted-invalid: expected E%d (%s)" % (case["rej"], what)]
         if first_code(obs) != case["rej"] and not case.get("lead"):
